@@ -687,3 +687,34 @@ def module_of_fn(repo: Repo, fn: ast.AST) -> Module:
     from sa.loader import module_of
 
     return module_of(fn)
+
+
+def digit_class(check: Check, repo: Repo, modules: list[str], rule: str = "DIGIT-CLASS") -> None:
+    check.rule(
+        rule,
+        "whether a string is an integer literal is decided by the anchored pattern -?(0|[1-9][0-9]*) only: "
+        "str.isdigit / isdecimal / isnumeric are not used in the scalar and literal modules - they accept "
+        "leading zeros ('007' is not an IntValue and does not re-parse) and non-ASCII digits",
+    )
+    n = 0
+    for mn in modules:
+        mod = repo.mod(mn)
+        bad = [c for c in ast.walk(mod.tree) if isinstance(c, ast.Call) and isinstance(c.func, ast.Attribute) and c.func.attr in ("isdigit", "isdecimal", "isnumeric")]
+        for c in bad:
+            check.ob(rule, c, f"{node_text(c, 60)} in {qualname_of(c)}", False, f"str.{c.func.attr}() accepts '007', '٣' and '²'")
+            n += 1
+        if not bad:
+            check.ob(rule, (mod.rel, 0, "<module>"), f"{mn}: no Unicode digit predicate", True, "none", nontrivial=False)
+            n += 1
+    # the pattern that is used instead
+    for mn in ("type.scalars",):
+        mod = repo.mod(mn)
+        pat = mod.toplevel_assign("_re_integer_string")
+        if pat is None:
+            continue  # the pattern is an implementation choice; only its misuse is a finding
+        try:
+            text = Evaluator(repo, mod).eval(pat.args[0])  # type: ignore[attr-defined]
+        except NotStatic:
+            text = None
+        ok = isinstance(text, str) and text.startswith("^") and text.endswith("\\Z") and "[1-9]" in text
+        check.ob(rule, pat, f"_re_integer_string = {text!r}", ok, "canonical integer, anchored" if ok else "pattern no longer excludes leading zeros / trailing text")
